@@ -316,6 +316,7 @@ func vc12NewRig() *vc12Rig {
 }
 
 func (r *vc12Rig) fresh() {
+	vc12Client.CloseIdleConnections()
 	r.proxy.Shutdown(context.Background())
 	r.proxy = vc12NewProxy(r.daemon, r.rpc)
 	r.extracted = false
